@@ -35,3 +35,31 @@ int akb_fromjson(const AkbArgs* a) {
 }
 
 }  // extern "C"
+
+// ---- static helpers of UnionArray that src/python/content.cpp binds with def_static
+#include "awkward/array/UnionArray.h"
+
+extern "C" {
+
+// i: which (0: UnionArray8_32, 1: UnionArray8_U32, 2: UnionArray8_64) ; x: offsets, counts...
+int akb_union_nested_tags_index(const AkbArgs* a) {
+  AKB_TRY(
+    ak::Index64 offsets = akb_index<int64_t>(a, 0);
+    std::vector<ak::Index64> counts;
+    for (int64_t k = 1;  k < a->nx;  k++) counts.push_back(akb_index<int64_t>(a, k));
+    if (a->i[0] == 0) {
+      auto out = ak::UnionArray8_32::nested_tags_index(offsets, counts);
+      akb_push_index<int8_t>(out.first); akb_push_index<int32_t>(out.second);
+    }
+    else if (a->i[0] == 1) {
+      auto out = ak::UnionArray8_U32::nested_tags_index(offsets, counts);
+      akb_push_index<int8_t>(out.first); akb_push_index<uint32_t>(out.second);
+    }
+    else {
+      auto out = ak::UnionArray8_64::nested_tags_index(offsets, counts);
+      akb_push_index<int8_t>(out.first); akb_push_index<int64_t>(out.second);
+    }
+  )
+}
+
+}  // extern "C"
